@@ -18,7 +18,7 @@ LEVEL = "exploration"
 TECHNIQUE = "runtime monitoring: round-trip monitor on the real save_to_config / load_from_config (byte-identical re-save) plus behavioural equality of original and loaded object on probe inputs that are proven sensitive to the option under test"
 RULE = (
     "cases = evaluator configurations: every field varied away from its default one at a time (complete over the value lists: "
-    "input type, backend, 7 matcher settings, handlers, 6 group definitions, metric selections, decision metric/threshold, the "
+    "input type, backend, 10 matcher settings (incl. thresholds equal to / one ulp above a probe score), handlers, 6 group definitions, metric selections, decision metric/threshold, the "
     "three boolean flags), all pairs of fields (two non-default values each), seeded random full combinations; each "
     "SupportsConfig component and each enum member saved on its own; the five shipped YAML files. A probe input counts for an "
     "option only if toggling that option on the original object changes the observable result on it. Non-trivial = "
@@ -43,6 +43,9 @@ FIELDS = {
     "backend": ["cc3d", "scipy"],
     "matcher": [
         {"kind": "naive", "metric": "IOU", "thr": 0.3, "m2o": False},
+        {"kind": "naive", "metric": "IOU", "thr": 0.6000000000000001, "m2o": False},  # one ulp above the 12/20 probe score
+        {"kind": "naive", "metric": "IOU", "thr": 4 / 9, "m2o": False},  # exactly the 8/18 probe score
+        {"kind": "merge", "metric": "DSC", "thr": 0.7500000000000001},
         {"kind": "naive", "metric": "DSC", "thr": 0.5, "m2o": False},
         {"kind": "naive", "metric": "ASSD", "thr": 1.0, "m2o": False},
         {"kind": "naive", "metric": "IOU", "thr": 0.5, "m2o": True},
@@ -65,7 +68,7 @@ FIELDS = {
     ],
     "metrics": [["DSC"], ["IOU", "ASSD"], ["DSC", "IOU", "ASSD", "RVD", "clDSC"], ["RVD", "IOU"]],
     "global": [[], ["IOU"], ["DSC", "ASSD", "RVD"], ["RVD", "DSC"]],
-    "decision": [("IOU", 0.7), ("DSC", 0.9), ("ASSD", 0.5), ("IOU", 0.25)],
+    "decision": [("IOU", 0.7), ("DSC", 0.9), ("ASSD", 0.5), ("IOU", 0.25), ("IOU", 0.6000000000000001), ("IOU", 4 / 9), ("ASSD", 0.0)],
     "save_group_times": [True],
     "log_times": [True],
     "verbose": [True],
